@@ -8,6 +8,7 @@ package rules
 import (
 	"fmt"
 	"go/token"
+	"go/types"
 	"sort"
 	"strings"
 
@@ -208,6 +209,9 @@ func (e *rbwEngine) analyse(fn *ssa.Function, k int, report bool, split int) (re
 				if fa.Field == m.F.Mant && !e.mantValueRead(ins, map[ssa.Value]bool{}) {
 					continue
 				}
+				if carriedBack(m, ins, fa.Field, k) {
+					continue
+				}
 				reads |= f
 				if rec {
 					key := m.InstrPos(ins) + m.FieldN[fa.Field]
@@ -274,6 +278,13 @@ func (e *rbwEngine) analyse(fn *ssa.Function, k int, report bool, split int) (re
 					if len(ins.Results) > 0 && m.IsDecPtr(ins.Results[0].Type()) {
 						rr := m.RefOf(ins.Results[0])
 						if rr.Params == 0 && !rr.Fresh && !rr.Unknown && !rr.Global {
+							success = false
+						}
+					}
+					// … and so is a return of an error that was found non-nil on the way
+					errT := types.Universe.Lookup("error").Type()
+					for _, rv := range ins.Results {
+						if types.Identical(rv.Type(), errT) && errKnownNonNil(m, rv, ins.Block()) {
 							success = false
 						}
 					}
@@ -369,6 +380,11 @@ func (e *rbwEngine) mantValueRead(v ssa.Value, vs map[ssa.Value]bool) bool {
 				if n := model.BuiltinName(c); n == "cap" {
 					continue
 				}
+				if n := model.BuiltinName(c); n == "len" {
+					if lv, ok := u.(ssa.Value); ok && onlyCompared(lv) && sameTestLen(lv) {
+						continue // the length compared with another mantissa's: part of an identity test
+					}
+				}
 				return true
 			}
 			if e.m.InDecimalPkg(cal) && (cal.Name() == "same" || cal.Name() == "alias") {
@@ -379,6 +395,12 @@ func (e *rbwEngine) mantValueRead(v ssa.Value, vs map[ssa.Value]bool) bool {
 					return true
 				}
 			}
+		case *ssa.IndexAddr:
+			// &v[0] compared with another address: the identity test
+			if k, ok := model.ConstInt(u.Index); ok && k == 0 && onlyCompared(u) {
+				continue
+			}
+			return true
 		case *ssa.Slice:
 			if u.X != v {
 				return true
@@ -578,6 +600,24 @@ func (e *rbwEngine) mustWrite(fn *ssa.Function, k, f int) bool {
 				}
 			case ssa.CallInstruction:
 				cal, c := model.Callee(ins)
+				if cal == nil && c != nil {
+					if ts := model.DynTargets(c); ts != nil {
+						all := true
+						for _, t := range ts {
+							hit := false
+							for ai, a := range t.Args {
+								if len(t.Fn.Blocks) > 0 && m.IsDecPtr(a.Type()) && m.RefOf(a).OnlyParam(k) && e.sums[t.Fn] != nil && e.sums[t.Fn][ai] != nil && e.mustWrite(t.Fn, ai, f) {
+									hit = true
+								}
+							}
+							all = all && hit
+						}
+						if all {
+							st = 2
+						}
+					}
+					continue
+				}
 				if cal == nil || len(cal.Blocks) == 0 {
 					continue
 				}
@@ -593,6 +633,18 @@ func (e *rbwEngine) mustWrite(fn *ssa.Function, k, f int) bool {
 						rr := m.RefOf(ins.Results[0])
 						if rr.Params == 0 && !rr.Fresh && !rr.Unknown && !rr.Global {
 							success = false
+						}
+					}
+					if success {
+						for _, r := range ins.Results {
+							if isErrorType(r.Type()) {
+								if c, isc := r.(*ssa.Const); isc && c.IsNil() {
+									continue
+								}
+								if errKnownNonNil(m, r, ins.Block()) {
+									success = false
+								}
+							}
 						}
 					}
 					if success && st != 2 {
@@ -859,6 +911,11 @@ func (e *rawEngine) analyse(fn *ssa.Function, w, r int, report bool, split int) 
 		}
 		switch cnd := ifi.Cond.(type) {
 		case *ssa.BinOp:
+			// the identity test of two mantissas written out: any failing conjunct of
+			// len(a) == len(b) && len(a) > 0 && &a[0] == &b[0] means "not the same slice"
+			if isC, failEdge := mantIdentityConjunct(m, cnd, isW, r); isC && si == failEdge {
+				st.dmant = true
+			}
 			if (cnd.Op == token.NEQ || cnd.Op == token.EQL) && m.IsDecPtr(cnd.X.Type()) && m.IsDecPtr(cnd.Y.Type()) {
 				rx, ry := m.RefOf(cnd.X), m.RefOf(cnd.Y)
 				if (isW(rx) && ry.OnlyParam(r)) || (isW(ry) && rx.OnlyParam(r)) {
@@ -872,7 +929,7 @@ func (e *rawEngine) analyse(fn *ssa.Function, w, r int, report bool, split int) 
 				}
 			}
 		case *ssa.Call:
-			cal := cnd.Call.StaticCallee()
+			cal := model.Unthunk(cnd.Call.StaticCallee())
 			if cal != nil && m.InDecimalPkg(cal) && (cal.Name() == "same" || cal.Name() == "alias") && si == 1 {
 				cnt := 0
 				for _, a := range cnd.Call.Args {
@@ -995,4 +1052,162 @@ func runFxDef(m *model.Model, s *ob.Set) {
 			s.Bad(R, c, m.Pos(fn.Pos()), fmt.Sprintf("some normal return leaves {%s} of the receiver as the previous operation left it", strings.Join(missing, ",")))
 		}
 	}
+}
+
+// onlyCompared: every use of v is a comparison (the identity test of two slices written out:
+// len(a) == len(b) && len(a) > 0 && &a[0] == &b[0], which is what same() is).
+func onlyCompared(v ssa.Value) bool {
+	refs := v.Referrers()
+	if refs == nil {
+		return true
+	}
+	for _, u := range *refs {
+		switch x := u.(type) {
+		case *ssa.DebugRef:
+		case *ssa.BinOp:
+			switch x.Op {
+			case token.EQL, token.NEQ, token.LSS, token.LEQ, token.GTR, token.GEQ:
+			default:
+				return false
+			}
+		default:
+			return false
+		}
+	}
+	return true
+}
+
+// sameTestLen: the length is compared with the length of another slice, or with 0 in front of an
+// address comparison — not used as a quantity.
+func sameTestLen(lv ssa.Value) bool {
+	for _, u := range *lv.Referrers() {
+		bo, ok := u.(*ssa.BinOp)
+		if !ok {
+			continue
+		}
+		other := bo.Y
+		if other == lv {
+			other = bo.X
+		}
+		if k, isK := model.ConstInt(other); isK {
+			if k != 0 {
+				return false
+			}
+			continue
+		}
+		if c, ok := stripConv(other).(*ssa.Call); !ok || model.BuiltinName(&c.Call) != "len" {
+			return false
+		}
+	}
+	return true
+}
+
+// mantIdentityConjunct: one conjunct of the written-out same() of the mantissas of the written
+// object and of operand r —  len(a) == len(b),  len(a) > 0,  &a[0] == &b[0]  — and the edge on
+// which it fails (there the two are not the same slice, or there is no word at all).
+func mantIdentityConjunct(m *model.Model, cnd *ssa.BinOp, isW func(model.Ref) bool, r int) (bool, int) {
+	isMant := func(v ssa.Value) bool {
+		if lf, ok := m.LoadOfDecField(model.Unwrap(v)); ok && lf.Field == m.F.Mant {
+			ref := m.RefOf(lf.X)
+			return isW(ref) || ref.OnlyParam(r)
+		}
+		return false
+	}
+	lenOfMant := func(v ssa.Value) bool {
+		c, ok := stripConv(v).(*ssa.Call)
+		return ok && model.BuiltinName(&c.Call) == "len" && isMant(c.Call.Args[0])
+	}
+	failOn := func(holdsOnTrue bool) int {
+		if holdsOnTrue {
+			return 1
+		}
+		return 0
+	}
+	switch cnd.Op {
+	case token.EQL, token.NEQ:
+		if lenOfMant(cnd.X) && lenOfMant(cnd.Y) {
+			return true, failOn(cnd.Op == token.EQL)
+		}
+		ia, ok1 := cnd.X.(*ssa.IndexAddr)
+		ib, ok2 := cnd.Y.(*ssa.IndexAddr)
+		if ok1 && ok2 {
+			for _, x := range []*ssa.IndexAddr{ia, ib} {
+				if k, ok := model.ConstInt(x.Index); !ok || k != 0 || !isMant(x.X) {
+					return false, 0
+				}
+			}
+			return true, failOn(cnd.Op == token.EQL)
+		}
+		if k, ok := model.ConstInt(cnd.Y); ok && k == 0 && lenOfMant(cnd.X) {
+			return true, failOn(cnd.Op == token.NEQ)
+		}
+	case token.GTR:
+		if k, ok := model.ConstInt(cnd.Y); ok && k == 0 && lenOfMant(cnd.X) {
+			return true, 1
+		}
+	case token.LEQ:
+		if k, ok := model.ConstInt(cnd.Y); ok && k == 0 && lenOfMant(cnd.X) {
+			return true, 0
+		}
+	}
+	return false, 0
+}
+
+// carriedBack: the loaded field of parameter k is only put into the same field of a scratch
+// Decimal of this function that is copied back whole into that parameter and whose field is
+// never looked at in between (d := Decimal{exp: z.exp, ...}; ...; *z = d): the field keeps its
+// value, nothing is computed from it.
+func carriedBack(m *model.Model, ld *ssa.UnOp, field, k int) bool {
+	if ld.Referrers() == nil || len(*ld.Referrers()) == 0 {
+		return false
+	}
+	for _, u := range *ld.Referrers() {
+		if _, ok := u.(*ssa.DebugRef); ok {
+			continue
+		}
+		st, ok := u.(*ssa.Store)
+		if !ok || st.Val != ssa.Value(ld) {
+			return false
+		}
+		fa, ok := st.Addr.(*ssa.FieldAddr)
+		if !ok || fa.Field != field {
+			return false
+		}
+		al, ok := fa.X.(*ssa.Alloc)
+		if !ok || !localOnlyFlowsTo(m, al, k, 3) || fieldLoaded(al, field, 3) {
+			return false
+		}
+	}
+	return true
+}
+
+// fieldLoaded: field f of the local al, or of a local al is copied into, is loaded on its own.
+func fieldLoaded(al *ssa.Alloc, f int, depth int) bool {
+	if depth == 0 || al.Referrers() == nil {
+		return true
+	}
+	for _, r := range *al.Referrers() {
+		switch x := r.(type) {
+		case *ssa.FieldAddr:
+			if x.Field != f || x.Referrers() == nil {
+				continue
+			}
+			for _, u := range *x.Referrers() {
+				if l, ok := u.(*ssa.UnOp); ok && l.Op == token.MUL {
+					return true
+				}
+			}
+		case *ssa.UnOp:
+			if x.Op == token.MUL && x.Referrers() != nil {
+				for _, u := range *x.Referrers() {
+					if st, ok := u.(*ssa.Store); ok {
+						if al2, ok := st.Addr.(*ssa.Alloc); ok && al2 != al && fieldLoaded(al2, f, depth-1) {
+							return true
+						}
+					}
+				}
+			}
+		}
+	}
+	return false
 }
